@@ -16,7 +16,8 @@ def strList (j : Json) (k : String) : R (List String) :=
   | .error _ => pure []
 
 def parsePlace (j : Json) : R Place := do
-  pure { loc := ← natF j "loc", dur := ← intF j "dur", tws := ← listF pairOf j "tws", tag := ← optStr j "tag" }
+  pure { loc := ← natF j "loc", dur := ← intF j "dur", tws := ← listF pairOf j "tws", tag := ← optStr j "tag",
+         resource := ← optStr j "resource" }
 
 def parseTask (j : Json) : R Task := do
   pure { kind := ← strF j "kind", places := ← listF parsePlace j "places", demand := ← listF asInt j "demand",
@@ -67,7 +68,12 @@ def parseProblem (j : Json) : R Problem := do
             shiftIndex := ← optF asNat r "shift_index" } : Relation)) j "relations"
   pure { n := ← natF j "n", profiles := profiles, jobs := ← listF parseJob j "jobs",
          vehicles := ← listF parseVehicleType j "vehicles", relations := relations,
-         objectives := objectiveNames (fldD j "objectives" Json.null) }
+         objectives := objectiveNames (fldD j "objectives" Json.null),
+         resources := ← (match j.getObjVal? "resources" with
+           | .ok (.arr a) => a.toList.mapM (fun r => do
+               let pr ← asArr r
+               pure ((← asStr pr[0]!), (← listOf asInt pr[1]!)))
+           | _ => pure []) }
 
 /-- numbers of the solution document are integers; anything else (`{"f": x}`, `{"bad_time": …}`) is an error that
     the caller reports as "inexact" -/
